@@ -18,6 +18,9 @@
              model's network (error vs no error included) and its Coq-evaluated impedance must equal the request at
              three rational points -- evaluated inside Coq (vm_compute over Qc)
   search     independent exact oracle (sympy): together(net.Z(s) - Z) has numerator 0; for transform net2.Z == net.Z
+  chains     second round (gen_chain_cases): every distinct network the first round returned is transformed again into another
+             form (network -> immittance -> network -> immittance -> network); theorems C19_transform_chain_preserves_Z (props),
+             transform_twice_preserves_Z / network_then_transform_realises (generated, over the translated tables)
 """
 import json
 import os
@@ -45,7 +48,11 @@ MANIFEST = {
             'immittance (otherwise the model raises); fosterI/fosterII realise Z given the partial-fraction terms, which the model '
             're-checks by an exact polynomial identity (root finding is an oracle); network(form) dispatch and Network.transform '
             'preserve the impedance; the default values of the form parameter of Network.transform / ImmittanceMixin.network / '
-            'synthesis.network are translated and exercised by calls that omit the argument. The hand models (Euclid loops, folds, dispatch, series/parallel with None) are evaluated inside Coq '
+            'synthesis.network are translated and exercised by calls that omit the argument; chains network -> immittance -> network -> ... of any '
+            'length through any forms preserve the impedance (C19_transform_chain_preserves_Z by induction over the chain; transform_twice_preserves_Z and '
+            'network_then_transform_realises over the translated tables), exercised by a second round that transforms the networks RETURNED by the first '
+            'round (ladders, Foster sections, G elements, negative values, deep nesting) into another form, and by nested same-kind one-ports sent through '
+            'every pattern form of transform(). The hand models (Euclid loops, folds, dispatch, series/parallel with None) are evaluated inside Coq '
             '(vm_compute over Qc) against the real code on generated driving-point functions x all forms: same network structure and '
             'element values, same error/no-error, Coq-evaluated impedance equal to the request at rational points.',
     'note': 'Trusted: Coq kernel/vm_compute; tools/tr_synth.py + statement templates in checks/c19.py; tree parser in tools/impl_synth.py; '
@@ -937,7 +944,8 @@ def run(tier='quick', replay=None):
         res.rule = ('cases: generated driving-point functions (fixed specials; impedances of random R/L/C/G trees; exact pattern forms and '
                     'reciprocals; random integer N/D; rational poles incl. origin/infinity/repeated; complex-conjugate pairs; LC reactance '
                     'functions; a few symbolic ones instantiated at a rational point) x all 15 forms (+ default, + an unknown form), through '
-                    'impedance(...).network, admittance(...).network and synthesis.network; random one-port trees x transform(form). '
+                    'impedance(...).network, admittance(...).network and synthesis.network; random one-port trees x transform(form); nested '
+                    'same-kind one-ports x the pattern forms of transform(); second round: networks returned by the first round x transform(another form). '
                     'non-trivial = Lcapy returned a network; distinct = distinct (function, form, mode)')
 
         if replay:
